@@ -199,8 +199,9 @@ def check_memo(prog, ctx):
                 recv = src(t.value)
                 if t.attr == MEMO_SLOT:
                     if f.name == "hashkey":
-                        guard = _enclosing_if(f.node, node)
-                        ok = guard is not None and MEMO_SLOT in src(guard.test) and "is None" in src(guard.test)
+                        from engine.astutil import memo_dominated
+
+                        ok = memo_dominated(f.node, node, MEMO_SLOT, f.params()[0])
                         ctx.check(ok, rid, f, node, src(node), "memo slot filled only under its own is-None guard")
                     else:
                         ok = in_index_cls and f.name in ("__init__", "copy_with") and src(node.value) == "None" and (
